@@ -17,7 +17,6 @@ VARIABLES b, batch
 
 Shard == StrToNat(IOEnv.SHARD)
 NShard == StrToNat(IOEnv.NSHARD)
-Sim == IOEnv.MODE = "sim"
 WantCalls == Prop # "C13" /\ IOEnv.CALLS = "1"
 
 Init == b = -1 /\ batch = <<>>
